@@ -18,6 +18,8 @@ def _no_tracing():
 class SimQueue(object):
     """queue.Queue stand-in (single-threaded): get on empty raises queue.Empty immediately."""
 
+    on_put = None
+
     def __init__(self, maxsize=0):
         self.items = collections.deque()
         self.log = []           # everything ever put
@@ -29,6 +31,8 @@ class SimQueue(object):
             if not block or timeout is not None:
                 raise queue.Full()
             raise api.Hang('put() on a full queue that nobody reads blocks for ever')
+        if self.on_put is not None:
+            self.on_put(item)        # what the item looks like at the moment it becomes visible to the other thread
         self.items.append(item)
         self.log.append(item)
 
